@@ -139,7 +139,7 @@ def run_valid(ctx, pydsdl, ns, seed, orders, workdir):
 
 
 ERROR_SHAPES = ["missing-name", "missing-version", "self", "cycle2", "cycle3", "case-only", "duplicate-in-lookups", "lookup-not-given", "older-minor-only",
-                "relative-in-other-namespace", "self-with-namesake", "cycle2-with-namesake", "cycle3-with-namesake", "duplicate-in-one-root", "duplicate-in-one-root"]
+                "relative-in-other-namespace", "self-with-namesake", "cycle2-with-namesake", "cycle3-with-namesake", "duplicate-in-one-root", "duplicate-in-one-root", "suffix-qualified", "suffix-qualified"]
 
 
 def make_error(rng, ns0, shape):
@@ -244,6 +244,19 @@ def make_error(rng, ns0, shape):
         if any(GN.full_name(ns, x) == GN.full_name(ns, t) and tuple(x["ver"]) == tuple(t["ver"]) and x["root"] in [0] + lookups for x in defs):
             return None
         # other references into the withheld root would fail too, which is fine: the tree must be rejected
+    elif shape == "suffix-qualified":
+        # a dotted name is absolute: an existing type named without its leading component(s) - as if the name were relative to the
+        # root or to a parent namespace, preferably one the referrer itself lives in - does not exist under that name
+        pool = [x for x in defs if x is not d and x["kind"] == "msg" and len(x["ns"]) >= 1]
+        pref = [x for x in pool if x["root"] == d["root"] and d["ns"] and x["ns"][:1] == d["ns"][:1]]
+        o = rng.choice(pref or pool or [None])
+        if o is None:
+            return None
+        comps = GN.full_name(ns, o).split(".")
+        alt = ".".join(comps[rng.randrange(1, len(comps) - 1):])
+        if any(GN.full_name(ns, x).lower() == alt.lower() for x in defs):
+            return None
+        d["refs"].append({"text": "%s.%d.%d" % (alt, o["ver"][0], o["ver"][1])})
     elif shape == "relative-in-other-namespace":
         # a dot-less name is relative to the referrer's own namespace: a type that only exists elsewhere must not be found
         o = [x for x in defs if GN.namespace_of(ns, x) != GN.namespace_of(ns, d) and x["kind"] == "msg"
